@@ -300,7 +300,7 @@ def check(ctx):
     for i, (spends, slack, style) in enumerate(cases):
         te, td = impl_total(spends, slack)
         impl.append((te, td))
-        if i < n_direct + len(FIXED) or ctx.searching:
+        if i < n_direct + len(FIXED):
             direct(ctx, spends, slack, rr)
         nontrivial = slack > 0 and len(spends) >= 2
         ctx.case((len(spends), f2b(slack), hash(tuple(spends))) if nontrivial else None)
